@@ -1531,6 +1531,7 @@ func (interp *Interpreter) cfg(root *node, sc *scope, importPath, pkgName string
 			cond, body := n.child[0], n.child[1]
 			if !isBool(cond.typ) {
 				err = cond.cfgErrorf("non-bool used as for condition")
+				break
 			}
 			if cond.rval.IsValid() {
 				// Condition is known at compile time, bypass test.
@@ -1550,6 +1551,7 @@ func (interp *Interpreter) cfg(root *node, sc *scope, importPath, pkgName string
 			init, cond, body := n.child[0], n.child[1], n.child[2]
 			if !isBool(cond.typ) {
 				err = cond.cfgErrorf("non-bool used as for condition")
+				break
 			}
 			n.start = init.start
 			if cond.rval.IsValid() {
@@ -1579,6 +1581,7 @@ func (interp *Interpreter) cfg(root *node, sc *scope, importPath, pkgName string
 			cond, post, body := n.child[0], n.child[1], n.child[2]
 			if !isBool(cond.typ) {
 				err = cond.cfgErrorf("non-bool used as for condition")
+				break
 			}
 			if cond.rval.IsValid() {
 				// Condition is known at compile time, bypass test.
@@ -1607,6 +1610,7 @@ func (interp *Interpreter) cfg(root *node, sc *scope, importPath, pkgName string
 			init, cond, post, body := n.child[0], n.child[1], n.child[2], n.child[3]
 			if !isBool(cond.typ) {
 				err = cond.cfgErrorf("non-bool used as for condition")
+				break
 			}
 			n.start = init.start
 			body.start = body.child[0] // loopvar
@@ -1705,6 +1709,7 @@ func (interp *Interpreter) cfg(root *node, sc *scope, importPath, pkgName string
 			cond, tbody := n.child[0], n.child[1]
 			if !isBool(cond.typ) {
 				err = cond.cfgErrorf("non-bool used as if condition")
+				break
 			}
 			if cond.rval.IsValid() {
 				// Condition is known at compile time, bypass test.
@@ -1723,6 +1728,7 @@ func (interp *Interpreter) cfg(root *node, sc *scope, importPath, pkgName string
 			cond, tbody, fbody := n.child[0], n.child[1], n.child[2]
 			if !isBool(cond.typ) {
 				err = cond.cfgErrorf("non-bool used as if condition")
+				break
 			}
 			if cond.rval.IsValid() {
 				// Condition is known at compile time, bypass test and the useless branch.
@@ -1744,6 +1750,7 @@ func (interp *Interpreter) cfg(root *node, sc *scope, importPath, pkgName string
 			init, cond, tbody := n.child[0], n.child[1], n.child[2]
 			if !isBool(cond.typ) {
 				err = cond.cfgErrorf("non-bool used as if condition")
+				break
 			}
 			n.start = init.start
 			if cond.rval.IsValid() {
@@ -1765,6 +1772,7 @@ func (interp *Interpreter) cfg(root *node, sc *scope, importPath, pkgName string
 			init, cond, tbody, fbody := n.child[0], n.child[1], n.child[2], n.child[3]
 			if !isBool(cond.typ) {
 				err = cond.cfgErrorf("non-bool used as if condition")
+				break
 			}
 			n.start = init.start
 			if cond.rval.IsValid() {
